@@ -2,6 +2,7 @@ package sym
 
 import (
 	"fmt"
+	"os"
 	"strconv"
 	"time"
 
@@ -217,6 +218,12 @@ func init() {
 	}
 	// vpObserve(label, value): recorded for comparison with the native replay (strings and ints)
 	vpAPI["vpObserve"] = func(e *Engine, st *State, args []Value, fn *ssa.Function) []Outcome {
+		if e.progress {
+			label := e.mustConcStr(args[0])
+			for _, r := range e.renderValue(st.fork(), 'v', args[1]) {
+				fmt.Fprintf(os.Stderr, "[observe] %s = %s\n", label, showValue(r.s))
+			}
+		}
 		return one(st, nil)
 	}
 }
